@@ -42,177 +42,324 @@ Proof.
     intros x H1 H2. apply HK; lia.
 Qed.
 
-Lemma present_view_eq ops p i j : view ops i = view ops j -> present ops p i = present ops p j.
-Proof. unfold present. intros ->. reflexivity. Qed.
 
-(* ------------------------------------------------------------------ origin *)
-Lemma present_from_spec ops p L :
-  present_from ops p L = true <-> (forall j, L <= j -> j < length ops -> present ops p j = true).
+
+(* ------------------------------------------------------------------ origin, over abstract views *)
+Section WalkProofs.
+  Variable vw : nat -> option (list N).
+  Variable ex : nat -> bool.
+  Variable n : nat.
+
+  Notation present := (present vw).
+  Notation origin := (origin vw n).
+  Notation is_origin := (is_origin vw n).
+
+  Lemma present_from_spec p L :
+    present_from vw n p L = true <-> (forall j, L <= j -> j < n -> present p j = true).
+  Proof.
+    unfold present_from. rewrite forallb_forall. split.
+    - intros H j H1 H2. apply H. apply in_seq. lia.
+    - intros H j Hj. apply in_seq in Hj. apply H; lia.
+  Qed.
+
+  Lemma find_seq_first (f : nat -> bool) L : forall m s,
+    s <= L -> L < s + m -> (forall x, s <= x -> x < L -> f x = false) -> f L = true ->
+    find f (seq s m) = Some L.
+  Proof.
+    induction m as [|m IH]; intros s H1 H2 H3 H4; [lia|]. cbn [seq find].
+    destruct (Nat.eq_dec s L) as [->|Hne]; [rewrite H4; reflexivity|].
+    rewrite (H3 s) by lia. apply IH; try lia; auto. intros x Hx1 Hx2. apply H3; lia.
+  Qed.
+
+  Lemma origin_unique_lemma p L : is_origin p L -> origin p = L.
+  Proof.
+    intros [HL [Hfrom Hprev]]. unfold Model.origin.
+    rewrite (find_seq_first (present_from vw n p) L n 0); auto; try lia.
+    - intros x _ Hx. destruct (present_from vw n p x) eqn:E; [|reflexivity].
+      exfalso. rewrite present_from_spec in E. destruct Hprev as [->|Habs]; [lia|].
+      rewrite (E (pred L)) in Habs; [discriminate|lia|lia].
+    - apply present_from_spec. exact Hfrom.
+  Qed.
+
+  Lemma origin_correct_lemma p :
+    0 < n -> present p (pred n) = true ->
+    is_origin p (origin p) /\
+    (forall L', (forall j, L' <= j -> j < n -> present p j = true) -> origin p <= L').
+  Proof.
+    intros Hn Hlast.
+    assert (Hex : exists L, is_origin p L).
+    { assert (G : forall k, k < n ->
+                   (forall j, k <= j -> j < n -> present p j = true) -> exists L, is_origin p L).
+      { induction k as [|k IH]; intros Hk Hall.
+        - exists 0. split; [exact Hk|]. split; [exact Hall|left; reflexivity].
+        - destruct (present p k) eqn:E.
+          + apply IH; [lia|]. intros j H1 H2. destruct (Nat.eq_dec j k) as [->|]; [exact E|apply Hall; lia].
+          + exists (S k). split; [exact Hk|]. split; [exact Hall|right; exact E]. }
+      apply (G (pred n)); [lia|]. intros j H1 H2. replace j with (pred n) by lia. exact Hlast. }
+    destruct Hex as [L HL]. rewrite (origin_unique_lemma _ _ HL). split; [exact HL|].
+    intros L' HL'. destruct HL as [HLn [_ [->|Habs]]]; [lia|].
+    destruct (le_lt_dec L L') as [|Hlt]; [assumption|]. rewrite (HL' (pred L)) in Habs; [discriminate|lia|lia].
+  Qed.
+
+  (* ---------------------------------------------------------------- the loop *)
+  Definition cache_ok (loc : N) (c : cache) : Prop :=
+    forall i v, cache_get c loc i = Some v -> v = content (vw i).
+
+  Lemma cache_put_ok loc c i :
+    cache_ok loc c -> cache_ok loc (cache_put c loc i (content (vw i))).
+  Proof.
+    intros H j v. unfold cache_put. cbn [cache_get]. rewrite N.eqb_refl. cbn [andb].
+    destruct (Nat.eqb i j) eqn:E.
+    - apply Nat.eqb_eq in E. subst j. intros G. injection G as <-. reflexivity.
+    - apply H.
+  Qed.
+
+  Hypothesis Hskip : skip_sound vw ex n.
+  Hypothesis Hnc : no_cancel vw n.
+
+  Notation walk := (walk vw ex).
+
+  Lemma walk_correct loc p : forall k last c,
+    cache_ok loc c ->
+    k <= last -> last < n ->
+    (forall j, last <= j -> j < n -> present p j = true) ->
+    (forall j, k <= j -> j < last -> j <> 0 /\ vw j = vw (pred j)) ->
+    fst (fst (walk loc p k last c false)) = origin p /\
+    cache_ok loc (snd (fst (walk loc p k last c false))) /\
+    snd (walk loc p k last c false) = false.
+  Proof.
+    induction k as [|i IH]; intros last c Hc Hkl Hlast Hpres Hrunk.
+    - cbn [Model.walk fst snd]. split; [|split; [exact Hc|reflexivity]]. symmetry. apply origin_unique_lemma.
+      destruct (Nat.eq_dec last 0) as [->|Hne].
+      + split; [exact Hlast|]. split; [intros j _ Hj; apply Hpres; lia|left; reflexivity].
+      + exfalso. destruct (Hrunk 0) as [H0 _]; [lia|lia|]. apply H0. reflexivity.
+    - (* the layers strictly between i and last were skipped: their views equal view i *)
+      assert (Hrun : forall j, i <= j -> j < last -> vw j = vw i).
+      { induction j as [|j IHj]; intros H1 H2.
+        - replace i with 0 by lia. reflexivity.
+        - destruct (Nat.eq_dec i (S j)) as [->|Hne]; [reflexivity|].
+          destruct (Hrunk (S j)) as [_ E]; [lia|lia|]. rewrite E. cbn [pred]. apply IHj; lia. }
+      assert (Hdecide :
+        let c' := cache_put c loc i (content (vw i)) in
+        let r := if mem p (content (vw i)) then walk loc p i i c' false else (last, c', false) in
+        fst (fst r) = origin p /\ cache_ok loc (snd (fst r)) /\ snd r = false).
+      { cbn zeta. pose proof (cache_put_ok loc c i Hc) as Hc'.
+        destruct (mem p (content (vw i))) eqn:Em.
+        - apply IH; auto; try lia.
+          intros j H1 H2. destruct (le_lt_dec last j) as [|Hlt]; [apply Hpres; assumption|].
+          unfold Model.present. rewrite (Hrun j H1 Hlt). exact Em.
+        - cbn [fst snd]. split; [|split; [exact Hc'|reflexivity]]. symmetry. apply origin_unique_lemma.
+          split; [exact Hlast|]. split; [exact Hpres|]. right.
+          unfold Model.present. rewrite (Hrun (pred last)) by lia. exact Em. }
+      cbn [Model.walk]. destruct (cache_get c loc i) as [old|] eqn:Eg.
+      + rewrite (Hc i old Eg). exact Hdecide.
+      + destruct (vw i) as [cont|] eqn:Ev.
+        * destruct (ex i) eqn:Ee.
+          -- rewrite (Hnc i cont) by (auto; lia). cbn [content] in Hdecide. exact Hdecide.
+          -- (* the skip branch *)
+             destruct (Hskip i) as [Hi0 Hprev]; [lia|exact Ee|rewrite Ev; discriminate|].
+             apply IH; auto; try lia.
+             intros j H1 H2. destruct (Nat.eq_dec j i) as [->|]; [split; [exact Hi0|exact Hprev]|apply Hrunk; lia].
+        * cbn [content] in Hdecide. exact Hdecide.
+  Qed.
+End WalkProofs.
+
+Lemma walk_eq_origin_lemma vw ex n loc p c :
+  skip_sound vw ex n -> no_cancel vw n ->
+  cache_ok vw loc c -> 0 < n -> present vw p (pred n) = true ->
+  fst (fst (walk vw ex loc p (pred n) (pred n) c false)) = origin vw n p /\
+  cache_ok vw loc (snd (fst (walk vw ex loc p (pred n) (pred n) c false))) /\
+  snd (walk vw ex loc p (pred n) (pred n) c false) = false.
 Proof.
-  unfold present_from. rewrite forallb_forall. split.
-  - intros H j H1 H2. apply H. apply in_seq. lia.
-  - intros H j Hj. apply in_seq in Hj. apply H; lia.
+  intros Hs Hnc Hc Hn Hp. apply (walk_correct vw ex n Hs Hnc); auto; try lia.
+  intros j H1 H2. replace j with (pred n) by lia. exact Hp.
 Qed.
 
-Lemma find_seq_first (f : nat -> bool) L : forall n s,
-  s <= L -> L < s + n -> (forall x, s <= x -> x < L -> f x = false) -> f L = true ->
-  find f (seq s n) = Some L.
+(* the walk for one location only adds cache entries for that location *)
+Lemma walk_other_loc vw ex loc p loc' : loc <> loc' -> forall k last c cn j,
+  cache_get (snd (fst (walk vw ex loc p k last c cn))) loc' j = cache_get c loc' j.
 Proof.
-  induction n as [|n IH]; intros s H1 H2 H3 H4; [lia|]. cbn [seq find].
-  destruct (Nat.eq_dec s L) as [->|Hne]; [rewrite H4; reflexivity|].
-  rewrite (H3 s) by lia. apply IH; try lia; auto. intros x Hx1 Hx2. apply H3; lia.
+  intros Hne. induction k as [|i IH]; intros last c cn j; cbn [walk]; [reflexivity|].
+  assert (Hput : forall v, cache_get (cache_put c loc i v) loc' j = cache_get c loc' j).
+  { intros v. unfold cache_put. cbn [cache_get]. destruct (N.eqb_spec loc loc'); [contradiction|reflexivity]. }
+  assert (Hdecide : forall old cn',
+    cache_get (snd (fst (if mem p old then walk vw ex loc p i i (cache_put c loc i old) cn' else (last, cache_put c loc i old, cn')))) loc' j
+    = cache_get c loc' j).
+  { intros old cn'. destruct (mem p old); [rewrite IH|cbn [fst snd]]; apply Hput. }
+  destruct (cache_get c loc i); [apply Hdecide|].
+  destruct (vw i); [|apply Hdecide].
+  destruct (ex i); [|apply IH].
+  destruct cn; [reflexivity|apply Hdecide].
 Qed.
 
-Lemma origin_unique_lemma ops p L : is_origin ops p L -> origin ops p = L.
+Lemma forallb_ext_in_local {A} (f g : A -> bool) l : (forall x, In x l -> f x = g x) -> forallb f l = forallb g l.
 Proof.
-  intros [HL [Hfrom Hprev]]. unfold origin.
-  rewrite (find_seq_first (present_from ops p) L (length ops) 0); auto; try lia.
-  - intros x _ Hx. destruct (present_from ops p x) eqn:E; [|reflexivity].
-    exfalso. rewrite present_from_spec in E. destruct Hprev as [->|Habs]; [lia|].
-    rewrite (E (pred L)) in Habs; [discriminate|lia|lia].
-  - apply present_from_spec. exact Hfrom.
+  induction l as [|x l IH]; intros H; [reflexivity|]. cbn [forallb].
+  rewrite (H x) by (left; reflexivity). rewrite IH; [reflexivity|]. intros y Hy. apply H. right. exact Hy.
 Qed.
 
-Lemma origin_correct_lemma ops p :
-  0 < length ops -> present ops p (pred (length ops)) = true ->
-  is_origin ops p (origin ops p) /\
-  (forall L', (forall j, L' <= j -> j < length ops -> present ops p j = true) -> origin ops p <= L').
+(* presence, origin and is_origin only look at the views below n *)
+Lemma origin_ext vw vw' n p : (forall i, i < n -> vw i = vw' i) -> origin vw n p = origin vw' n p.
 Proof.
-  intros Hn Hlast.
-  (* the least L with present_from exists because pred n qualifies *)
-  assert (Hex : exists L, is_origin ops p L).
-  { assert (G : forall k, k < length ops ->
-                 (forall j, k <= j -> j < length ops -> present ops p j = true) -> exists L, is_origin ops p L).
-    { induction k as [|k IH]; intros Hk Hall.
-      - exists 0. split; [exact Hk|]. split; [exact Hall|left; reflexivity].
-      - destruct (present ops p k) eqn:E.
-        + apply IH; [lia|]. intros j H1 H2. destruct (Nat.eq_dec j k) as [->|]; [exact E|apply Hall; lia].
-        + exists (S k). split; [exact Hk|]. split; [exact Hall|right; exact E]. }
-    apply (G (pred (length ops))); [lia|]. intros j H1 H2. replace j with (pred (length ops)) by lia. exact Hlast. }
-  destruct Hex as [L HL]. rewrite (origin_unique_lemma _ _ _ HL). split; [exact HL|].
-  intros L' HL'. destruct HL as [HLn [_ [->|Habs]]]; [lia|].
-  destruct (le_lt_dec L L') as [|Hlt]; [assumption|]. rewrite (HL' (pred L)) in Habs; [discriminate|lia|lia].
+  intros H. unfold origin. f_equal.
+  assert (E : forall L, In L (seq 0 n) -> present_from vw n p L = present_from vw' n p L).
+  { intros L HL. unfold present_from. apply forallb_ext_in_local. intros j Hj. apply in_seq in Hj.
+    unfold present. rewrite H by lia. reflexivity. }
+  clear H. induction (seq 0 n) as [|x l IH]; [reflexivity|]. cbn [find].
+  rewrite (E x) by (left; reflexivity). destruct (present_from vw' n p x); [reflexivity|].
+  apply IH. intros L HL. apply E. right. exact HL.
 Qed.
 
-(* ------------------------------------------------------------------ the loop *)
-Definition cache_ok (ops : list op) (loc : N) (c : cache) : Prop :=
-  forall i v, cache_get c loc i = Some v -> v = content (view ops i).
-
-Lemma cache_put_ok ops loc c i :
-  cache_ok ops loc c -> cache_ok ops loc (cache_put c loc i (content (view ops i))).
+(* ------------------------------------------------------------------ whole-file histories *)
+Lemma skip_sound_ops ops extra :
+  skip_sound (view ops) (fun i => diff ops i || extra i) (length ops).
 Proof.
-  intros H j v. unfold cache_put. cbn [cache_get]. rewrite N.eqb_refl. cbn [andb].
-  destruct (Nat.eqb i j) eqn:E.
-  - apply Nat.eqb_eq in E. subst j. intros G. injection G as <-. reflexivity.
-  - apply H.
+  intros i Hi He Hv. apply orb_false_iff in He as [Hd _].
+  assert (Hop : op_at ops i = Keep).
+  { unfold diff in Hd. destruct (op_at ops i) eqn:Eo; [reflexivity|discriminate|].
+    exfalso. apply Hv. destruct i as [|i'].
+    - rewrite view_0 by lia. rewrite Eo. reflexivity.
+    - rewrite view_S by lia. rewrite Eo. reflexivity. }
+  destruct i as [|i'].
+  - exfalso. apply Hv. rewrite view_0 by lia. rewrite Hop. reflexivity.
+  - split; [discriminate|]. rewrite view_S by lia. rewrite Hop. reflexivity.
 Qed.
 
-Lemma walk_correct ops loc p : forall k last c,
-  cache_ok ops loc c ->
-  k <= last -> last < length ops ->
-  (forall j, last <= j -> j < length ops -> present ops p j = true) ->
-  (forall j, k <= j -> j < last -> op_at ops j = Keep) ->
-  (k < last -> view ops k <> None) ->
-  fst (walk ops loc p k last c) = origin ops p /\ cache_ok ops loc (snd (walk ops loc p k last c)).
+Lemma trace_one_correct ops extra loc p c :
+  cache_ok (view ops) loc c -> 0 < length ops -> present (view ops) p (pred (length ops)) = true ->
+  no_cancel (view ops) (length ops) ->
+  fst (fst (trace_one ops extra loc p c)) = origin (view ops) (length ops) p /\
+  cache_ok (view ops) loc (snd (fst (trace_one ops extra loc p c))).
 Proof.
-  induction k as [|i IH]; intros last c Hc Hkl Hlast Hpres Hkeep Hsome.
-  - cbn [walk fst snd]. split; [|exact Hc]. symmetry. apply origin_unique_lemma.
-    destruct (Nat.eq_dec last 0) as [->|Hne].
-    + split; [exact Hlast|]. split; [intros j _ Hj; apply Hpres; lia|left; reflexivity].
-    + exfalso. apply Hsome; [lia|]. rewrite view_0 by lia. rewrite (Hkeep 0) by lia. reflexivity.
-  - (* everything strictly between i and last is Keep, so those views equal view i *)
-    assert (Hrun : forall j, i <= j -> j < last -> view ops j = view ops i).
-    { intros j H1 H2. apply view_keep_run; [exact H1|lia|]. intros x Hx1 Hx2. apply Hkeep; lia. }
-    (* what happens once oldPackages = content (view i) has been obtained *)
-    assert (Hdecide :
-      let c' := cache_put c loc i (content (view ops i)) in
-      let r := if mem p (content (view ops i)) then walk ops loc p i i c' else (last, c') in
-      fst r = origin ops p /\ cache_ok ops loc (snd r)).
-    { cbn zeta. pose proof (cache_put_ok ops loc c i Hc) as Hc'.
-      destruct (mem p (content (view ops i))) eqn:Em.
-      - apply IH; auto; try lia.
-        + intros j H1 H2. destruct (le_lt_dec last j) as [|Hlt]; [apply Hpres; assumption|].
-          unfold present. rewrite (Hrun j H1 Hlt). exact Em.
-      - cbn [fst snd]. split; [|exact Hc']. symmetry. apply origin_unique_lemma.
-        split; [exact Hlast|]. split; [exact Hpres|]. right.
-        unfold present. rewrite (Hrun (pred last)) by lia. exact Em. }
-    cbn [walk]. destruct (cache_get c loc i) as [old|] eqn:Eg.
-    + rewrite (Hc i old Eg). exact Hdecide.
-    + destruct (view ops i) as [cont|] eqn:Ev.
-      * destruct (diff ops i) eqn:Ed.
-        -- cbn [content] in Hdecide. exact Hdecide.
-        -- (* the skip branch: the layer's own diff does not hold the file, the view does *)
-           assert (Hop : op_at ops i = Keep).
-           { unfold diff in Ed. destruct (op_at ops i) eqn:Eo; [reflexivity|discriminate|].
-             exfalso. destruct i as [|i'].
-             - rewrite view_0 in Ev by lia. rewrite Eo in Ev. discriminate.
-             - rewrite view_S in Ev by lia. rewrite Eo in Ev. discriminate. }
-           apply IH; auto; try lia.
-           ++ intros j H1 H2. destruct (Nat.eq_dec j i) as [->|]; [exact Hop|apply Hkeep; lia].
-           ++ intros _ Hnone. congruence.
-      * cbn [content] in Hdecide. exact Hdecide.
-Qed.
-
-Lemma trace_one_correct ops loc p c :
-  cache_ok ops loc c -> 0 < length ops -> present ops p (pred (length ops)) = true ->
-  fst (trace_one ops loc p c) = origin ops p /\ cache_ok ops loc (snd (trace_one ops loc p c)).
-Proof.
-  intros Hc Hn Hp. unfold trace_one. apply walk_correct; auto; try lia.
+  intros Hc Hn Hp Hnc. unfold trace_one.
+  destruct (walk_correct (view ops) (fun i => diff ops i || extra i) (length ops) (skip_sound_ops ops extra) Hnc
+              loc p (pred (length ops)) (pred (length ops)) c Hc) as [H1 [H2 _]]; auto; try lia.
   intros j H1 H2. replace j with (pred (length ops)) by lia. exact Hp.
 Qed.
 
-(* ------------------------------------------------------------------ all packages, shared cache *)
-Definition cache_ok_all (h : list clayer) (c : cache) : Prop :=
-  forall loc, cache_ok (ops_of h loc) loc c.
+(* ------------------------------------------------------------------ images *)
+Lemma lops_length h loc : length (lops_of h loc) = length h.
+Proof. unfold lops_of. apply map_length. Qed.
 
-Lemma cache_get_other c loc loc' i v : loc <> loc' -> cache_get (cache_put c loc i v) loc' = cache_get c loc'.
-Proof. intros Hne. unfold cache_put. cbn [cache_get]. destruct (N.eqb_spec loc loc'); [contradiction|reflexivity]. Qed.
+Lemma fold_left_app_one {A B} (f : A -> B -> A) l x a : fold_left f (l ++ [x]) a = f (fold_left f l a) x.
+Proof. rewrite fold_left_app. reflexivity. Qed.
 
-(* the walk for one location only adds entries for that location *)
-Lemma walk_other_loc ops loc p loc' : loc <> loc' -> forall k last c j,
-  cache_get (snd (walk ops loc p k last c)) loc' j = cache_get c loc' j.
+Lemma lstate_0 h loc : 0 < length h -> lstate h loc 0 = lstep SNone (nth 0 (lops_of h loc) LKeep).
 Proof.
-  intros Hne. induction k as [|i IH]; intros last c j; cbn [walk]; [reflexivity|].
-  assert (Hput : forall v, cache_get (cache_put c loc i v) loc' j = cache_get c loc' j).
-  { intros v. unfold cache_put. cbn [cache_get]. destruct (N.eqb_spec loc loc'); [contradiction|reflexivity]. }
-  assert (Hdecide : forall old,
-    cache_get (snd (if mem p old then walk ops loc p i i (cache_put c loc i old) else (last, cache_put c loc i old))) loc' j
-    = cache_get c loc' j).
-  { intros old. destruct (mem p old); [rewrite IH|cbn [snd]]; apply Hput. }
-  destruct (cache_get c loc i); [apply Hdecide|].
-  destruct (view ops i); [|apply Hdecide].
-  destruct (diff ops i); [apply Hdecide|apply IH].
+  intros H. unfold lstate. rewrite <- (lops_length h loc) in H. destruct (lops_of h loc); [cbn in H; lia|]. reflexivity.
 Qed.
+
+Lemma lstate_S h loc i : S i < length h -> lstate h loc (S i) = lstep (lstate h loc i) (nth (S i) (lops_of h loc) LKeep).
+Proof.
+  intros H. unfold lstate. rewrite <- (lops_length h loc) in H.
+  rewrite (firstn_S_nth (lops_of h loc) LKeep (S i) H). apply fold_left_app_one.
+Qed.
+
+Lemma nth_lops h loc i : i < length h -> nth i (lops_of h loc) LKeep = assoc_op (cl_ops (nth i h (mkCL 0 0 true []))) loc.
+Proof.
+  intros H. unfold lops_of. rewrite (nth_indep _ LKeep (assoc_op (cl_ops (mkCL 0 0 true [])) loc)) by (rewrite map_length; exact H).
+  apply (map_nth (fun L => assoc_op (cl_ops L) loc)).
+Qed.
+
+Lemma link_free_nth h loc i : link_free h loc = true -> forall t, nth i (lops_of h loc) LKeep <> LLink t.
+Proof.
+  unfold link_free. rewrite forallb_forall. intros H t E.
+  destruct (le_lt_dec (length (lops_of h loc)) i) as [Hge|Hlt].
+  - rewrite nth_overflow in E by exact Hge. discriminate.
+  - specialize (H _ (nth_In _ LKeep Hlt)). rewrite E in H. discriminate.
+Qed.
+
+Lemma link_free_state h loc : link_free h loc = true -> forall i, i < length h -> forall t, lstate h loc i <> SSym t.
+Proof.
+  intros Hlf. induction i as [|i IH]; intros Hi t.
+  - rewrite lstate_0 by lia. pose proof (link_free_nth h loc 0 Hlf) as Hn.
+    destruct (nth 0 (lops_of h loc) LKeep) eqn:E; cbn; try discriminate. exfalso. exact (Hn t0 eq_refl).
+  - rewrite lstate_S by lia. pose proof (link_free_nth h loc (S i) Hlf) as Hn.
+    destruct (nth (S i) (lops_of h loc) LKeep) eqn:E; cbn; try discriminate.
+    + apply IH. lia.
+    + exfalso. exact (Hn t0 eq_refl).
+Qed.
+
+(* the premise of the general theorem holds when the first location is never a symbolic link *)
+Lemma skip_sound_image h locs :
+  link_free h (primary locs) = true -> locs <> [] ->
+  skip_sound (lview h (primary locs)) (lexist h locs) (length h).
+Proof.
+  intros Hlf Hne i Hi He Hv. destruct locs as [|loc rest]; [contradiction|]. cbn [primary hd] in *.
+  unfold lexist in He. cbn [existsb] in He. apply orb_false_iff in He as [He _].
+  rewrite <- (nth_lops h loc i Hi) in He.
+  pose proof (link_free_nth h loc i Hlf) as Hnl.
+  assert (Hop : nth i (lops_of h loc) LKeep = LKeep \/ nth i (lops_of h loc) LKeep = LDelete).
+  { destruct (nth i (lops_of h loc) LKeep) eqn:E; auto; [discriminate|exfalso; exact (Hnl t eq_refl)]. }
+  destruct i as [|i'].
+  - exfalso. apply Hv. unfold lview. rewrite lstate_0 by lia. destruct Hop as [Hop | Hop]; rewrite Hop; reflexivity.
+  - split; [discriminate|]. cbn [pred]. destruct Hop as [Hop | Hop].
+    + unfold lview. rewrite lstate_S by lia. rewrite Hop. cbn [lstep].
+      pose proof (link_free_state h loc Hlf i') as Hs. destruct (lstate h loc i') eqn:E; try reflexivity.
+      exfalso. apply (Hs ltac:(lia) t). reflexivity.
+    + exfalso. apply Hv. unfold lview. rewrite lstate_S by lia. rewrite Hop. reflexivity.
+Qed.
+
+Definition cache_ok_all (h : list clayer) (c : cache) : Prop := forall loc, cache_ok (lview h loc) loc c.
+
+Definition pkg_ok (h : list clayer) (lp : pkgref) : Prop :=
+  fst lp <> [] /\ link_free h (primary (fst lp)) = true /\
+  present (lview h (primary (fst lp))) (snd lp) (pred (length h)) = true /\
+  no_cancel (lview h (primary (fst lp))) (length h).
 
 Lemma trace_all_correct h : forall pkgs c,
   cache_ok_all h c -> 0 < length h ->
-  (forall loc p, In (loc, p) pkgs -> present (ops_of h loc) p (pred (length h)) = true) ->
-  trace_all h pkgs c = map (fun lp => origin (ops_of h (fst lp)) (snd lp)) pkgs.
+  (forall lp, In lp pkgs -> pkg_ok h lp) ->
+  trace_all h pkgs c false = map (fun lp => origin (lview h (primary (fst lp))) (length h) (snd lp)) pkgs.
 Proof.
-  induction pkgs as [|[loc p] r IH]; intros c Hc Hn Hin; [reflexivity|].
+  induction pkgs as [|[locs p] r IH]; intros c Hc Hn Hin; [reflexivity|].
   cbn [trace_all map fst snd].
-  assert (Hlen : length (ops_of h loc) = length h) by (unfold ops_of; apply map_length).
-  destruct (trace_one_correct (ops_of h loc) loc p c (Hc loc)) as [Ho Hc'].
-  { rewrite Hlen. exact Hn. }
-  { rewrite Hlen. apply Hin. left. reflexivity. }
-  destruct (trace_one (ops_of h loc) loc p c) as [o c'] eqn:Et. cbn [fst snd] in Ho, Hc'.
+  destruct (Hin (locs, p) (or_introl eq_refl)) as [Hne [Hlf [Hp Hnc]]]. cbn [fst snd] in *.
+  destruct (walk_correct (lview h (primary locs)) (lexist h locs) (length h) (skip_sound_image h locs Hlf Hne) Hnc
+              (primary locs) p (pred (length h)) (pred (length h)) c (Hc (primary locs))) as [Ho [Hc' Hcn]]; try lia.
+  { intros j H1 H2. replace j with (pred (length h)) by lia. exact Hp. }
+  destruct (walk (lview h (primary locs)) (lexist h locs) (primary locs) p (pred (length h)) (pred (length h)) c false)
+    as [[o c'] cn] eqn:Et. cbn [fst snd] in Ho, Hc', Hcn. subst cn.
   rewrite Ho. f_equal. apply IH; auto.
-  - intros loc'. destruct (N.eq_dec loc loc') as [<-|Hne]; [exact Hc'|].
+  - intros loc'. destruct (N.eq_dec (primary locs) loc') as [<-|Hneq]; [exact Hc'|].
     intros i v Hg. apply (Hc loc' i v). rewrite <- Hg.
-    unfold trace_one in Et. pose proof (walk_other_loc (ops_of h loc) loc p loc' Hne
-      (pred (length (ops_of h loc))) (pred (length (ops_of h loc))) c i) as W.
-    rewrite Et in W. cbn [snd] in W. symmetry. exact W.
-  - intros loc' p' H. apply Hin. right. exact H.
+    pose proof (walk_other_loc (lview h (primary locs)) (lexist h locs) (primary locs) p loc' Hneq
+      (pred (length h)) (pred (length h)) c false i) as W.
+    rewrite Et in W. cbn [fst snd] in W. symmetry. exact W.
+  - intros lp H. apply Hin. right. exact H.
+Qed.
+
+(* for a location that is never a link, the view is the overlay of its whole-file operations *)
+Lemma ops_of_length h loc : length (ops_of h loc) = length h.
+Proof. unfold ops_of. rewrite map_length. apply lops_length. Qed.
+
+Lemma lview_link_free h loc : link_free h loc = true -> forall i, i < length h -> lview h loc i = view (ops_of h loc) i.
+Proof.
+  intros Hlf.
+  assert (G : forall i, i < length h ->
+            match lstate h loc i with SNone => view (ops_of h loc) i = None | SFile c => view (ops_of h loc) i = Some c | SSym _ => False end).
+  { induction i as [|i IH]; intros Hi.
+    - rewrite lstate_0 by lia. rewrite view_0 by (rewrite ops_of_length; lia). unfold op_at, ops_of.
+      rewrite (nth_indep _ Keep (strip LKeep)) by (rewrite map_length, lops_length; lia). rewrite map_nth.
+      pose proof (link_free_nth h loc 0 Hlf) as Hn.
+      destruct (nth 0 (lops_of h loc) LKeep) eqn:E; cbn; try reflexivity. exact (Hn t eq_refl).
+    - rewrite lstate_S by lia. rewrite view_S by (rewrite ops_of_length; lia). unfold op_at, ops_of.
+      rewrite (nth_indep _ Keep (strip LKeep)) by (rewrite map_length, lops_length; lia). rewrite map_nth.
+      pose proof (link_free_nth h loc (S i) Hlf) as Hn. specialize (IH ltac:(lia)).
+      destruct (nth (S i) (lops_of h loc) LKeep) eqn:E; cbn [lstep strip step]; try reflexivity.
+      + fold (ops_of h loc). exact IH.
+      + exact (Hn t eq_refl). }
+  intros i Hi. specialize (G i Hi). unfold lview. destruct (lstate h loc i); [symmetry; exact G|symmetry; exact G|contradiction].
 Qed.
 
 (* ------------------------------------------------------------------ corollaries *)
 (* a package written by layer c, absent just before, present ever after, is attributed to c
    whatever happened earlier (removed and re-added: the re-adder) *)
-Lemma readded_lemma ops p c :
-  c < length ops ->
-  (c = 0 \/ present ops p (pred c) = false) ->
-  (forall j, c <= j -> j < length ops -> present ops p j = true) ->
-  origin ops p = c.
+Lemma readded_lemma vw n p c :
+  c < n ->
+  (c = 0 \/ present vw p (pred c) = false) ->
+  (forall j, c <= j -> j < n -> present vw p j = true) ->
+  origin vw n p = c.
 Proof. intros H1 H2 H3. apply origin_unique_lemma. split; [exact H1|split; [exact H3|exact H2]]. Qed.
 
 (* inserting a layer that does not touch the file (all-Keep, e.g. an empty layer) at position k *)
@@ -268,14 +415,14 @@ Proof.
 Qed.
 
 Lemma untouched_layer_lemma ops p k :
-  0 < length ops -> k <= length ops -> present ops p (pred (length ops)) = true ->
-  origin (insert_at k Keep ops) p = bump k (origin ops p).
+  0 < length ops -> k <= length ops -> present (view ops) p (pred (length ops)) = true ->
+  origin (view (insert_at k Keep ops)) (S (length ops)) p = bump k (origin (view ops) (length ops) p).
 Proof.
-  intros Hn Hk Hp. destruct (origin_correct_lemma ops p Hn Hp) as [[HL [Hfrom Hprev]] _].
-  set (L := origin ops p) in *. pose proof (insert_at_length k Keep ops) as Hlen.
+  intros Hn Hk Hp. destruct (origin_correct_lemma (view ops) (length ops) p Hn Hp) as [[HL [Hfrom Hprev]] _].
+  set (L := origin (view ops) (length ops) p) in *.
   assert (Hpres : forall j, j < S (length ops) ->
-            present (insert_at k Keep ops) p j =
-            if Nat.ltb j k then present ops p j else match j with 0 => false | S j' => present ops p j' end).
+            present (view (insert_at k Keep ops)) p j =
+            if Nat.ltb j k then present (view ops) p j else match j with 0 => false | S j' => present (view ops) p j' end).
   { intros j Hj. unfold present. rewrite (view_insert_keep ops k Hk j Hj).
     destruct (Nat.ltb j k); [reflexivity|]. destruct j; reflexivity. }
   apply origin_unique_lemma. unfold bump. destruct (Nat.ltb L k) eqn:ELk.
@@ -293,10 +440,24 @@ Proof.
       * destruct L as [|L']; [reflexivity|]. destruct Hprev as [H0|Habs]; [discriminate|exact Habs].
 Qed.
 
+Lemma lops_of_insert h k L loc :
+  lops_of (insert_at k L h) loc = insert_at k (assoc_op (cl_ops L) loc) (lops_of h loc).
+Proof. unfold lops_of, insert_at. rewrite map_app. cbn [map]. rewrite firstn_map, skipn_map. reflexivity. Qed.
+
 Lemma ops_of_insert h k L loc :
-  assoc_op (cl_ops L) loc = Keep -> ops_of (insert_at k L h) loc = insert_at k Keep (ops_of h loc).
+  assoc_op (cl_ops L) loc = LKeep -> ops_of (insert_at k L h) loc = insert_at k Keep (ops_of h loc).
 Proof.
-  intros HK. unfold ops_of, insert_at. rewrite map_app. cbn [map]. rewrite HK, firstn_map, skipn_map. reflexivity.
+  intros HK. unfold ops_of. rewrite lops_of_insert, HK. unfold insert_at. rewrite map_app. cbn [map strip].
+  rewrite firstn_map, skipn_map. reflexivity.
+Qed.
+
+Lemma link_free_insert h k L loc :
+  assoc_op (cl_ops L) loc = LKeep -> link_free h loc = true -> link_free (insert_at k L h) loc = true.
+Proof.
+  intros HK. unfold link_free. rewrite lops_of_insert, HK, !forallb_forall. intros H x Hx.
+  unfold insert_at in Hx. apply in_app_or in Hx as [Hx|[<-|Hx]]; [|reflexivity|].
+  - apply H. rewrite <- (firstn_skipn k (lops_of h loc)). apply in_or_app. left. exact Hx.
+  - apply H. rewrite <- (firstn_skipn k (lops_of h loc)). apply in_or_app. right. exact Hx.
 Qed.
 
 Lemma nth_bump {A} k (x d : A) l o : k <= length l -> nth (bump k o) (insert_at k x l) d = nth o l d.
@@ -304,6 +465,21 @@ Proof.
   intros Hk. unfold bump. destruct (Nat.ltb o k) eqn:E.
   - apply Nat.ltb_lt in E. apply nth_insert_lt; assumption.
   - apply Nat.ltb_ge in E. apply nth_insert_gt; assumption.
+Qed.
+
+Lemma untouched_image_lemma h k L loc p :
+  0 < length h -> k <= length h ->
+  assoc_op (cl_ops L) loc = LKeep -> link_free h loc = true ->
+  present (lview h loc) p (pred (length h)) = true ->
+  origin (lview (insert_at k L h) loc) (length (insert_at k L h)) p = bump k (origin (lview h loc) (length h) p).
+Proof.
+  intros Hn Hk HK Hlf Hp.
+  pose proof (link_free_insert h k L loc HK Hlf) as Hlf'.
+  rewrite (origin_ext _ (view (ops_of (insert_at k L h) loc)) _ p (lview_link_free _ loc Hlf')).
+  rewrite (origin_ext _ (view (ops_of h loc)) _ p (lview_link_free _ loc Hlf)).
+  rewrite (ops_of_insert h k L loc HK), insert_at_length, <- (ops_of_length h loc).
+  apply untouched_layer_lemma; rewrite ?ops_of_length; auto.
+  unfold present in *. rewrite <- (lview_link_free h loc Hlf) by lia. exact Hp.
 Qed.
 
 (* ------------------------------------------------------------------ history alignment *)
